@@ -44,6 +44,11 @@ pub enum FaultKind {
     /// id and an rpc-error, the second is positive and bears the same id / another id
     ErrorRootThenPositiveRootSameId,
     ErrorRootThenPositiveRootOtherId,
+    /// the positive reply, except that it is not UTF-8 (RFC 6241 section 3 requires UTF-8): a
+    /// Latin-1 byte / a truncated multi-byte sequence inside a comment
+    NotUtf8InComment,
+    /// (load-configuration) warning whose <error-message> text contains a Latin-1 byte, then <ok/>
+    NotUtf8InWarningText,
 }
 
 impl FaultKind {
@@ -66,6 +71,8 @@ impl FaultKind {
             FaultKind::ErrorReplyThenSecondPositiveReply => "error-reply-then-second-positive-reply",
             FaultKind::ErrorRootThenPositiveRootSameId => "error-root-then-positive-root-in-one-frame(same-id)",
             FaultKind::ErrorRootThenPositiveRootOtherId => "error-root-then-positive-root-in-one-frame(other-id)",
+            FaultKind::NotUtf8InComment => "positive-but-not-utf8(comment)",
+            FaultKind::NotUtf8InWarningText => "positive-but-not-utf8(warning-text)",
         }
     }
     /// does this fault mean "the step failed" (as opposed to a benign variation)?
@@ -77,6 +84,7 @@ impl FaultKind {
             FaultKind::RpcError, FaultKind::WarningThenOk, FaultKind::NoPositive, FaultKind::NotXml, FaultKind::Truncated,
             FaultKind::WrongMessageId, FaultKind::CloseBefore, FaultKind::CloseAfter, FaultKind::StallThenClose,
             FaultKind::DelayedRpcError, FaultKind::ErrorThenOk, FaultKind::ErrorWarningThenOk, FaultKind::ForeignError, FaultKind::HoldOk, FaultKind::ErrorReplyThenSecondPositiveReply, FaultKind::ErrorRootThenPositiveRootSameId, FaultKind::ErrorRootThenPositiveRootOtherId,
+            FaultKind::NotUtf8InComment, FaultKind::NotUtf8InWarningText,
         ]
         .into_iter()
         .find(|f| f.name() == s)
@@ -100,6 +108,10 @@ pub struct Script {
     pub faults_only_session: Option<usize>,
     /// replies held back by `HoldOk` are sent this many real milliseconds after the next reply
     pub late_ms: u64,
+    /// a subtree filter that selects nothing: false = the reply keeps the containment elements that
+    /// exist (`<configuration><policy-options/></configuration>`), true = `<data/>` (RFC 6241
+    /// section 6.2.5 read strictly). Which of the two Junos does is not known here.
+    pub no_match_is_empty_data: bool,
 }
 
 #[derive(Clone, Debug)]
@@ -119,6 +131,8 @@ pub struct Req {
 pub struct Shared {
     pub ephemeral: Config,
     pub committed: Option<Config>,
+    /// every acknowledged commit: (session, the state it made effective)
+    pub commits: Vec<(usize, Config)>,
     pub log: Vec<Req>,
     pub sessions: Vec<(u128, Option<u128>)>, // (accepted at, closed at) ms
     pub model_events: Vec<(usize, ModelEvent)>,
@@ -300,6 +314,17 @@ async fn serve(mut s: tokio_rustls::server::TlsStream<tokio::net::TcpStream>, se
                     let src = e.child("source").and_then(|x| x.elems().next()).map(|x| x.local().to_string()).unwrap_or_default();
                     detail = format!("source={src} filter={}", e.child("filter").is_some());
                     data = if src == "running" { script.running.clone() } else { sh.lock().unwrap().ephemeral.render_configuration() };
+                    // the server honours the subtree filter of the request (RFC 6241 section 6)
+                    if let Some(f) = e.child("filter") {
+                        if f.attr("type").map_or(true, |t| t == "subtree") {
+                            match subtree_filter(&data, f, !script.no_match_is_empty_data) {
+                                Ok(filtered) => data = filtered,
+                                Err(err) => sh.lock().unwrap().unmodelled.push(format!("get-config filter: {err}")),
+                            }
+                        } else {
+                            sh.lock().unwrap().unmodelled.push(format!("get-config filter type {:?}", f.attr("type")));
+                        }
+                    }
                 }
                 "load-configuration" => {
                     detail = format!("action={:?} format={:?}", e.attr("action"), e.attr("format"));
@@ -331,6 +356,8 @@ async fn serve(mut s: tokio_rustls::server::TlsStream<tokio::net::TcpStream>, se
                     if fault.as_ref().map_or(true, |f| !f.is_failure()) {
                         let mut g = sh.lock().unwrap();
                         g.committed = Some(g.ephemeral.clone());
+                        let snap = g.ephemeral.clone();
+                        g.commits.push((session, snap));
                     }
                 }
                 "close-configuration" | "close-session" => {}
@@ -395,6 +422,28 @@ async fn serve(mut s: tokio_rustls::server::TlsStream<tokio::net::TcpStream>, se
                         let mut b = reply(&idv, &format!("<load-configuration-results>{RPC_ERROR}<load-error-count>1</load-error-count></load-configuration-results>"));
                         b.extend(reply(&idv, &ok_body));
                         Some(b)
+                    }
+                    FaultKind::NotUtf8InComment | FaultKind::NotUtf8InWarningText => {
+                        let body = if *f == FaultKind::NotUtf8InWarningText && op == "load-configuration" {
+                            "<load-configuration-results><rpc-error><error-type>application</error-type><error-tag>operation-failed</error-tag><error-severity>warning</error-severity><error-message>statement cr@@BAD@@e par l'op@@BAD@@rateur</error-message></rpc-error><ok/></load-configuration-results>".to_string()
+                        } else {
+                            format!("{ok_body}<!-- note: @@BAD@@ -->")
+                        };
+                        let text = reply(&idv, &body);
+                        let bad: &[u8] = if idv.len() % 2 == 0 || *f == FaultKind::NotUtf8InWarningText { b"\xe9" } else { b"\xe2\x82" };
+                        let mut out = Vec::new();
+                        let pat = b"@@BAD@@";
+                        let mut i = 0;
+                        while i < text.len() {
+                            if text[i..].starts_with(pat) {
+                                out.extend_from_slice(bad);
+                                i += pat.len();
+                            } else {
+                                out.push(text[i]);
+                                i += 1;
+                            }
+                        }
+                        Some(out)
                     }
                     FaultKind::NotXml => Some(format!("%%% not xml at all <<<{MARKER}").into_bytes()),
                     FaultKind::Truncated => {
@@ -542,4 +591,96 @@ pub fn running_config(managed: &[(String, String)]) -> String {
     let pols: Vec<N> = managed.iter().map(|(n, e)| candidate_policy(n, &format!("/* bgpfu-fltr: {e} */"), None)).collect();
     let cfg = N::el(XNM, "configuration").kid(N::el(XNM, "policy-options").kids(pols));
     dom::serialise(&cfg, &Style::default()).replace("<policy-options/>", "<policy-options></policy-options>")
+}
+
+
+/// RFC 6241 section 6.2 subtree filtering of `config` (one root element, as text) by the children
+/// of `<filter>`: containment nodes (elements with child elements), selection nodes (empty
+/// elements) and content match nodes (leaves with text). Names are compared by local name (Junos
+/// accepts the filter without namespace declarations). Attributes of selected elements and of
+/// their ancestors are kept; attribute match expressions are not modelled (an attribute in the
+/// filter is an error here).
+pub fn subtree_filter(config: &str, filter: &crate::xmlstrict::Elem, keep_skeleton: bool) -> Result<String, String> {
+    use crate::xmlstrict::{escape_attr, Elem};
+    let raw = config.as_bytes();
+    let root = crate::xmlstrict::parse(raw).map_err(|e| format!("configuration does not parse: {}", e.msg))?.root;
+    fn start_tag(e: &Elem) -> String {
+        let mut s = format!("<{}", e.name);
+        for (k, v) in &e.attrs {
+            s.push_str(&format!(" {k}=\"{}\"", escape_attr(v)));
+        }
+        s.push('>');
+        s
+    }
+    fn whole(e: &Elem, raw: &[u8]) -> String {
+        format!("{}{}</{}>", start_tag(e), String::from_utf8_lossy(&raw[e.content.0..e.content.1]), e.name)
+    }
+    fn select(data: &Elem, f: &Elem, raw: &[u8], keep_skeleton: bool) -> Result<Option<String>, String> {
+        if f.attrs.iter().any(|(k, _)| k != "xmlns" && !k.starts_with("xmlns:")) {
+            return Err(format!("attribute match expression on <{}> not modelled", f.name));
+        }
+        let fkids: Vec<&Elem> = f.elems().collect();
+        if fkids.is_empty() {
+            // selection node (a content match node is handled by its parent)
+            return Ok(Some(whole(data, raw)));
+        }
+        let is_cm = |k: &Elem| k.elems().next().is_none() && !k.text().trim().is_empty();
+        let cms: Vec<&Elem> = fkids.iter().copied().filter(|k| is_cm(k)).collect();
+        let others: Vec<&Elem> = fkids.iter().copied().filter(|k| !is_cm(k)).collect();
+        for cm in &cms {
+            if !data.children_named(cm.local()).any(|c| c.text().trim() == cm.text().trim()) {
+                return Ok(None);
+            }
+        }
+        if others.is_empty() {
+            return Ok(Some(whole(data, raw)));
+        }
+        let mut inner = String::new();
+        let mut any = false;
+        for child in data.elems() {
+            if cms.iter().any(|cm| cm.local() == child.local()) {
+                inner.push_str(&whole(child, raw));
+                continue;
+            }
+            for f2 in &others {
+                if f2.local() == child.local() {
+                    if let Some(sel) = select(child, f2, raw, keep_skeleton)? {
+                        inner.push_str(&sel);
+                        any = true;
+                    }
+                    break;
+                }
+            }
+        }
+        if !any && !keep_skeleton {
+            return Ok(None);
+        }
+        Ok(Some(format!("{}{inner}</{}>", start_tag(data), data.name)))
+    }
+    let mut out = String::new();
+    for f in filter.elems() {
+        if f.local() == root.local() {
+            if let Some(sel) = select(&root, f, raw, keep_skeleton)? {
+                out.push_str(&sel);
+            }
+        }
+    }
+    Ok(out)
+}
+
+#[cfg(test)]
+mod filter_tests {
+    #[test]
+    fn subtree() {
+        let cfg = r#"<configuration xmlns="urn:x" a="1"><system><host-name>r1</host-name></system><policy-options><prefix-list><name>p</name></prefix-list><policy-statement c="x &amp; y"><name>a</name><term><name>t</name></term><then><reject/></then></policy-statement><policy-statement><name>b</name><then><accept/></then></policy-statement></policy-options></configuration>"#;
+        let f = |t: &str| crate::xmlstrict::parse(format!("<filter>{t}</filter>").as_bytes()).unwrap().root;
+        let all = super::subtree_filter(cfg, &f("<configuration><policy-options><policy-statement/></policy-options></configuration>"), false).unwrap();
+        assert!(all.contains("<term>") && all.contains("c=\"x &amp; y\"") && !all.contains("prefix-list") && !all.contains("system") && all.contains("<name>b</name>"));
+        let narrow = super::subtree_filter(cfg, &f("<configuration><policy-options><policy-statement><name/><then/></policy-statement></policy-options></configuration>"), false).unwrap();
+        assert!(!narrow.contains("<term>") && narrow.contains("<then><reject/></then>") && narrow.contains("c=\"x &amp; y\""));
+        let cm = super::subtree_filter(cfg, &f("<configuration><policy-options><policy-statement><name>b</name></policy-statement></policy-options></configuration>"), false).unwrap();
+        assert!(cm.contains("<accept/>") && !cm.contains("<reject/>"));
+        assert_eq!(super::subtree_filter(cfg, &f("<configuration><snmp/></configuration>"), false).unwrap(), "");
+        assert_eq!(super::subtree_filter(cfg, &f("<configuration><snmp/></configuration>"), true).unwrap(), "<configuration xmlns=\"urn:x\" a=\"1\"></configuration>");
+    }
 }
